@@ -86,20 +86,20 @@ Lemma pv_ev k : forall i v acc r, (i + k = 9)%nat -> v < 2 ^ (7 * N.of_nat k + 1
   pv k i (ev k v ++ r) acc = VOk (acc + v * 2 ^ (7 * N.of_nat i)) (i + length (ev k v)).
 Proof.
   induction k as [|k IH]; intros i v acc r Hi Hv.
-  - simpl in *. assert (i = 9)%nat by lia. subst i.
-    change (2 ^ (7 * 0 + 1)) with 2 in Hv.
-    rewrite N.mod_small by lia.
-    destruct (N.ltb_spec v 128); [|lia]. simpl Nat.eqb.
-    destruct (N.leb_spec 2 v); [lia|]. simpl. reflexivity.
-  - simpl ev. destruct (N.ltb_spec v 128) as [Hs|Hs].
-    + simpl. destruct (N.ltb_spec v 128); [|lia].
-      replace (Nat.eqb i 9) with false by (symmetry; apply Nat.eqb_neq; lia). simpl.
+  - assert (i = 9)%nat by lia. subst i.
+    change (2 ^ (7 * N.of_nat 0 + 1)) with 2 in Hv.
+    cbn [ev app pv length]. rewrite N.mod_small by lia.
+    destruct (N.ltb_spec v 128); [|lia]. cbn [Nat.eqb andb].
+    destruct (N.leb_spec 2 v); [lia|]. reflexivity.
+  - cbn [ev]. destruct (N.ltb_spec v 128) as [Hs|Hs].
+    + cbn [app pv length]. destruct (N.ltb_spec v 128); [|lia].
+      replace (Nat.eqb i 9) with false by (symmetry; apply Nat.eqb_neq; lia). cbn [andb].
       f_equal. lia.
-    + simpl app. simpl pv.
+    + cbn [app pv].
       assert (Hm : v mod 128 < 128) by (apply N.mod_lt; lia).
-      destruct (N.ltb_spec (v mod 128 + 128) 128); [lia|].
+      destruct (N.ltb_spec (v mod 128 + 128) 128) as [Hc|Hc]; [exfalso; apply N.lt_nge in Hc; apply Hc; apply N.le_add_l|].
       rewrite IH; [| lia |].
-      * f_equal; [|simpl; lia].
+      * f_equal; [|cbn [length]; lia].
         replace (v mod 128 + 128 - 128) with (v mod 128) by lia.
         replace (7 * N.of_nat (S i)) with (7 * N.of_nat i + 7) by lia.
         rewrite N.pow_add_r. change (2 ^ 7) with 128.
@@ -114,12 +114,12 @@ Lemma pv_ev_cut k : forall i v acc j, (j < length (ev k v))%nat ->
 Proof.
   induction k as [|k IH]; intros i v acc j Hj.
   - simpl in *. assert (j = 0)%nat by lia. subst j. reflexivity.
-  - simpl ev in *. destruct (N.ltb_spec v 128) as [Hs|Hs].
+  - cbn [ev] in *. destruct (N.ltb_spec v 128) as [Hs|Hs].
     + simpl in Hj. assert (j = 0)%nat by lia. subst j. reflexivity.
     + destruct j as [|j]; [reflexivity|].
-      simpl firstn. simpl pv.
+      cbn [firstn pv].
       assert (Hm : v mod 128 < 128) by (apply N.mod_lt; lia).
-      destruct (N.ltb_spec (v mod 128 + 128) 128); [lia|].
+      destruct (N.ltb_spec (v mod 128 + 128) 128) as [Hc|Hc]; [exfalso; apply N.lt_nge in Hc; apply Hc; apply N.le_add_l|].
       apply IH. simpl in Hj. lia.
 Qed.
 
